@@ -149,14 +149,29 @@ ACC_FILES["inner"] = ACC_FILES["del"]
 ACC_FILES["req"] = ACC_FILES["svc"]
 
 def _acc_object(kind, tag):
+    """-> (object, the caller's list handed to the constructor or None)"""
+    if kind in ("bst", "bun", "bdel"):
+        import pydsdl
+        from pathlib import Path
+        u8 = pydsdl.UnsignedIntegerType(8, pydsdl.PrimitiveType.CastMode.SATURATED)
+        u16 = pydsdl.UnsignedIntegerType(16, pydsdl.PrimitiveType.CastMode.SATURATED)
+        arg = [pydsdl.Field(u8, "a"), pydsdl.Constant(u16, "K", pydsdl._expression.Rational(7)), pydsdl.Field(pydsdl.BooleanType(), "b")]
+        if kind != "bun":
+            arg.insert(1, pydsdl.PaddingField(pydsdl.VoidType(8)))
+        cls = pydsdl.UnionType if kind == "bun" else pydsdl.StructureType
+        t = cls(name="ns.sub.T", version=pydsdl.Version(1, 0), attributes=arg, deprecated=False, fixed_port_id=None,
+                source_file_path=Path("/nonexistent/ns/sub/T.1.0.dsdl"), has_parent_service=False, doc="doc")
+        if kind == "bdel":
+            t = pydsdl.DelimitedType(t, 64)
+        return t, arg
     with dsdlio.Tree(ACC_FILES[kind], tag) as tr:
         status, res, _ = dsdlio.read_ns(tr.path("ns"))
     t = res[0]
     if kind == "inner":
-        return t.inner_type
+        return t.inner_type, None
     if kind == "req":
-        return t.request_type
-    return t
+        return t.request_type, None
+    return t, None
 
 def _acc_proj(t):
     def guard(f):
@@ -178,15 +193,15 @@ def acc_worker(arg):
     if st["ph"] < 2:
         return None
     kind, warm, hist = st["case"]["obj"], st["case"]["warm"], st["case"]["h"]
-    t = _acc_object(kind, "c18a")
+    t, ctor_arg = _acc_object(kind, "c18a")
     # what the object must show is taken from an independently built twin, so that a cold object is not touched
     # before the first accessor call of the history (a first read may behave differently from later ones)
-    p0 = _acc_proj(_acc_object(kind, "c18b"))
+    p0 = _acc_proj(_acc_object(kind, "c18b")[0])
     diff = []
     if warm and _acc_proj(t) != p0:
         diff.append(("an object and its independently built twin show different things", kind))
     for n, step in enumerate(hist):
-        lst = getattr(t, step["acc"])
+        lst = ctor_arg if step["acc"] == "ctor_arg" else getattr(t, step["acc"])
         try:
             op = step["op"]
             if op == "append":
@@ -208,7 +223,8 @@ def acc_worker(arg):
         except Exception as ex:
             p = ("exception", type(ex).__name__, str(ex)[:100])
         if p != p0:
-            diff.append(("step %d: mutating the list returned by %s (%s) changed the object" % (n + 1, step["acc"], step["op"]),
+            diff.append(("step %d: mutating the list %s (%s) changed the object" % (n + 1, "handed to the constructor" if
+                         step["acc"] == "ctor_arg" else "returned by " + step["acc"], step["op"]),
                          [x for x, y in zip(p, p0) if x != y][:3]))
             break
     r = {"nt": True, "key": core.jhash(tlaval.to_json(st["case"]))}
